@@ -484,7 +484,6 @@ def scenarios(tier, rng):
         dict(name="T_full_deque_hit_vs_evict", setup=[T(0, a0), T(0, a1), T(0, a2)],
              threads=[[T(0, a0)], [T(0, AXES3[4])]]),
         dict(name="T_prefilled2_1x1", setup=[T(0, a0), T(0, a1)], threads=[[T(0, a2)], [T(0, AXES3[3])]]),
-        dict(name="T_2x2", setup=[], threads=[[T(0, a0), T(0, a1)], [T(0, a1), T(0, a0)]]),
         dict(name="R_witness_shape", setup=[], threads=[[R(0, s0)], [R(0, s1), R(0, s2)]]),
         dict(name="R_fresh_2x1", setup=[], threads=[[R(0, s0), R(0, s0)], [R(0, s1)]]),
         dict(name="TR_same_array", setup=[], threads=[[T(0, a0), R(0, s0)], [R(0, s0)]]),
@@ -504,6 +503,7 @@ def scenarios(tier, rng):
     ]
     if tier != "quick":
         ex += [
+            dict(name="T_2x2", setup=[], threads=[[T(0, a0), T(0, a1)], [T(0, a1), T(0, a0)]]),
             dict(name="T_full_deque_1x2", setup=[T(0, a0), T(0, a1), T(0, a2)],
                  threads=[[T(0, AXES3[3])], [T(0, AXES3[4]), T(0, a0)]]),
             dict(name="R_prefilled_1x2", setup=[R(0, s2)], threads=[[R(0, s0)], [R(0, s1), R(0, s0)]]),
@@ -625,7 +625,7 @@ def campaign(build, tier, seed, report, budget=1):
     # one pool for everything (workers import numba once)
     flat = [(k, fn, j) for k, fn in order for j in by_kind.get(k, [])]
     res = vlib.run_impl("props.c13", "impl_dispatch", [(fn, j) for _k, fn, j in flat], workers=14,
-                        per_case_timeout=100.0 if quick else 700.0)
+                        per_case_timeout=150.0 if quick else 700.0)
     for (k, _fn, j), r in zip(flat, res, strict=True):
         results.setdefault(k, []).append((j, r))
 
@@ -648,8 +648,11 @@ def campaign(build, tier, seed, report, budget=1):
                     continue
                 lits.append(case_literal(scn, r["table"], e))
                 meta.append((kind, scn, e))
-    verdicts = dict(build.judge("c13_sched", IMPORTS, CASE_TYPE, "judge_sched", lits, chunk=400))
-    tags = dict(build.judge("c13_tags", IMPORTS, CASE_TYPE, "tag_sched", lits, chunk=400))
+    both = dict(build.judge("c13_sched", IMPORTS, CASE_TYPE, "fun c => judge_sched c + 8 * tag_sched c", lits, chunk=400))
+    if len(both) != len(lits):
+        raise vlib.CoqEvalError(f"judge returned {len(both)} verdicts for {len(lits)} cases")
+    verdicts = {i: v % 8 for i, v in both.items()}
+    tags = {i: v // 8 for i, v in both.items()}
     hist = {}
     tagnames = [(1, "runtime_error_predicted"), (2, "deque_created_twice"), (4, "memo_computed_twice"),
                 (8, "attr_stored_twice"), (16, "lookup_hit_or_lost")]
